@@ -26,16 +26,23 @@ Before(w, a, b) ==
 
 Occ(s, x) == Cardinality({i \in 1..Len(s) : s[i] = x})
 
-CloseMatchViol(r) ==
-  IF r.panic THEN {"panic"}
-  ELSE
-  LET w == r.word
-      pass == SelectSeq(r.cands, LAMBDA c : Passes(w, c, r.p, r.q))
+\* (the bounded quantifier binds the table of ratios to an evaluated value: TLC would otherwise
+\* re-evaluate a LET definition - and with it every LCS - at each use)
+CloseMatchJudge(r, R) ==
+  LET pass == SelectSeq(r.cands, LAMBDA c : R[c][1] * r.q >= r.p * R[c][2])
       res == r.result
       vals == {pass[i] : i \in 1..Len(pass)}
-  IN IF /\ Len(res) = Mn(r.n, Len(pass))
-        /\ \A i \in 1..Len(res) : res[i] \in vals /\ Occ(res, res[i]) <= Occ(pass, res[i])
-        /\ \A i, j \in 1..Len(res) : i < j => ~Before(w, res[j], res[i])
-        /\ \A x \in vals : Occ(res, x) < Occ(pass, x) => \A i \in 1..Len(res) : ~Before(w, x, res[i])
-     THEN {} ELSE {"closematch"}
+      Bef(a, b) == LET x == R[a][1] * R[b][2]
+                       y == R[b][1] * R[a][2]
+                   IN x > y \/ (x = y /\ a # b /\ LexLeq(a, b))
+  IN /\ Len(res) = Mn(r.n, Len(pass))
+     /\ \A i \in 1..Len(res) : res[i] \in vals /\ Occ(res, res[i]) <= Occ(pass, res[i])
+     /\ \A i, j \in 1..Len(res) : i < j => ~Bef(res[j], res[i])
+     /\ \A x \in vals : Occ(res, x) < Occ(pass, x) => \A i \in 1..Len(res) : ~Bef(x, res[i])
+
+CloseMatchViol(r) ==
+  IF r.panic THEN {"panic"}
+  ELSE LET cvals == {r.cands[i] : i \in 1..Len(r.cands)} IN
+       IF \E R \in {[c \in cvals |-> <<RNum(r.word, c), RDen(r.word, c)>>]} : CloseMatchJudge(r, R)
+       THEN {} ELSE {"closematch"}
 =============================================================================
